@@ -15,6 +15,8 @@ From Coq Require Import ZArith List Bool.
 From LV Require Import Base.Lin Base.Conc Spec.Specs Model.SkipSeq Model.EllenSeq Model.AvlSeq
   Proofs.SkipSeqProofs Proofs.EllenSeqProofs Proofs.AvlSeqProofs.
 From LV Require Model.SkipList Proofs.SkipListProofs.
+From LV Require Base.Events Model.MichaelList Proofs.MichaelListBase Proofs.MichaelListInv Proofs.MichaelListProofs Proofs.MichaelListFullProofs
+  Model.LazyList Proofs.LazyListDefs Proofs.LazyListProofs Proofs.LazyListLinProofs Proofs.ListQuiescent Proofs.LazyListQuiescent.
 Import ListNotations.
 Local Open Scope Z_scope.
 
@@ -134,3 +136,72 @@ Example C18_skip_nonvacuous :
   let s := sk_run [(Ins 5 50, 3%nat); (Ins 3 30, 1%nat); (Ins 8 80, 8%nat); (Del 5, 1%nat); (Ups 4 40, 2%nat)] in
   sk_traverse s = [(3, 30); (4, 40); (8, 80)] /\ map (map nkey) (firstn 3 s) = [[3; 4; 8]; [4; 8]; [8]].
 Proof. vm_compute. split; reflexivity. Qed.
+
+(** * Quiescent points after CONCURRENT histories of the list-based containers (MichaelList, LazyList): theorems for every
+    schedule of the step-grain models of C13 (LV.Proofs.ListQuiescent, by the C13 owner; cited here because they are
+    exactly C18's "quiescent structure well-formed, traversal exact, size agrees" for the ordered lists).
+    For every reachable configuration there is a valid LP-annotated trace of the whole history; when the history is
+    quiescent (every invocation has its response) every thread is Idle, the keys met by the traversal are exactly the
+    abstract set, strictly increasing and duplicate-free, and (item counter modelled) m_ItemCounter = the cardinality. *)
+Module ListsQuiescent.
+Import LV.Base.Conc LV.Base.Events LV.Base.Lin LV.Spec.Specs.
+Import LV.Model.MichaelList LV.Proofs.MichaelListBase LV.Proofs.MichaelListInv LV.Proofs.MichaelListProofs LV.Proofs.MichaelListFullProofs.
+
+Theorem C18_mlist_quiescent :
+  forall (fuel sf : nat) (ic : bool) (ths : list (list (list Z))) c,
+    Conc.reach (MichaelList.init_cfg fuel sf ic ths) c ->
+    exists atr S st L,
+      lp_run lp_init atr = Some (S, st) /\ erase atr = full_hist (Conc.trace c) /\
+      list_nodes (Conc.shared c) L /\
+      zsorted (ListQuiescent.live_keys (Conc.shared c) L) /\ NoDup (ListQuiescent.live_keys (Conc.shared c) L) /\
+      (forall k, zmem k S = true <-> In k (ListQuiescent.live_keys (Conc.shared c) L)) /\
+      (ListQuiescent.quiescent_hist (full_hist (Conc.trace c)) -> forall t, st t = @Idle SetSpec).
+Proof. exact ListQuiescent.mlist_quiescent. Qed.
+Print Assumptions C18_mlist_quiescent.
+
+(** With the item counter modelled ( atomicity::item_counter, variant 3 ): in a quiescent configuration m_ItemCounter
+    equals the cardinality of the abstract set = the number of unmarked nodes of the chain.  (The counter is updated
+    after the linearization point; LV.Proofs.MichaelListCount: the counter always equals the net number of items
+    that the COMPLETED operations of the history inserted, plus the counter accesses of the operations in progress.) *)
+Theorem C18_mlist_quiescent_count :
+  forall (fuel sf : nat) (ths : list (list (list Z))) c,
+    Conc.reach (MichaelList.init_cfg fuel sf true ths) c ->
+    exists atr S st L,
+      lp_run lp_init atr = Some (S, st) /\ erase atr = full_hist (Conc.trace c) /\
+      list_nodes (Conc.shared c) L /\
+      zsorted (ListQuiescent.live_keys (Conc.shared c) L) /\ NoDup (ListQuiescent.live_keys (Conc.shared c) L) /\
+      (forall k, zmem k S = true <-> In k (ListQuiescent.live_keys (Conc.shared c) L)) /\
+      (ListQuiescent.quiescent_hist (full_hist (Conc.trace c)) ->
+         (forall t, st t = @Idle SetSpec) /\
+         count (Conc.shared c) = Z.of_nat (List.length S) /\
+         count (Conc.shared c) = Z.of_nat (List.length (ListQuiescent.live_keys (Conc.shared c) L))).
+Proof. exact ListQuiescent.mlist_quiescent_count. Qed.
+Print Assumptions C18_mlist_quiescent_count.
+
+Theorem C18_lazy_quiescent :
+  forall (fuel sf : nat) (ic : bool) (ths : list (list (list Z))) (c : Conc.config LazyList.G LazyList.V ev),
+    Conc.reach (LazyList.init_cfg fuel sf ic ths) c ->
+    exists atr Sabs st0,
+      lp_run lp_init atr = Some (Sabs, st0) /\ erase atr = upd_hist (Conc.trace c) /\
+      LazyListDefs.increasing (LazyListDefs.lazy_keys (Conc.shared c)) /\
+      (LazyListQuiescent.quiescent_hist (upd_hist (Conc.trace c)) ->
+         (forall t, st0 t = @Idle SetSpec) /\
+         (forall k, zmem k Sabs = true <-> In k (LazyListDefs.lazy_keys (Conc.shared c)))).
+Proof. exact ListQuiescent.lazy_quiescent. Qed.
+Print Assumptions C18_lazy_quiescent.
+
+Theorem C18_lazy_quiescent_count :
+  forall (fuel sf : nat) (ths : list (list (list Z))) (c : Conc.config LazyList.G LazyList.V ev),
+    Conc.reach (LazyList.init_cfg fuel sf true ths) c ->
+    exists atr Sabs st0,
+      lp_run lp_init atr = Some (Sabs, st0) /\ erase atr = upd_hist (Conc.trace c) /\
+      LazyListDefs.increasing (LazyListDefs.lazy_keys (Conc.shared c)) /\
+      (LazyListQuiescent.quiescent_hist (upd_hist (Conc.trace c)) ->
+         (forall t, st0 t = @Idle SetSpec) /\
+         (forall k, zmem k Sabs = true <-> In k (LazyListDefs.lazy_keys (Conc.shared c))) /\
+         LazyList.count (Conc.shared c) = Z.of_nat (List.length Sabs) /\
+         LazyList.count (Conc.shared c) = Z.of_nat (List.length (LazyListDefs.lazy_keys (Conc.shared c)))).
+Proof. exact ListQuiescent.lazy_quiescent_count. Qed.
+Print Assumptions C18_lazy_quiescent_count.
+
+End ListsQuiescent.
